@@ -320,6 +320,15 @@ def names(vb: VB, features, group):
                 der += ", Into, TryFrom, IntoIterator"
             body = decl("W", inner, "validate(predicate = |v| true), derive(%s)" % der, generics="<%s%s>" % (p, bounds))
             vb.add(body, A, "names:type-param:%s:%s%s" % (p, inner, bounds), group=group)
+    # the user spells, on a type parameter, the very trait the derive also needs as a bound
+    for (bound, der, inner) in (("::core::str::FromStr", "FromStr", "X"), ("::core::fmt::Display", "Display", "X"), ("::core::fmt::Debug", "Debug", "Vec<X>"),
+                                ("Clone", "Clone", "Vec<X>"), ("PartialEq", "PartialEq", "Vec<X>"), ("::core::hash::Hash", "Hash", "Vec<X>"), ("Default", "Debug", "X")):
+        vb.add(decl("W", inner, "derive(%s)" % der, generics="<X: %s>" % bound), A, "generic:user-bound-equals-derive-bound:%s" % der, group=group)
+    if full:
+        vb.add(decl("W", "Vec<X>", "derive(Serialize)", generics="<X: ::serde::Serialize>"), A, "generic:user-bound-equals-derive-bound:Serialize", group=group)
+        vb.add(decl("W", "Vec<X>", "derive(Deserialize)", generics="<X: ::serde::de::DeserializeOwned>"), U, "generic:user-bound-equals-derive-bound:Deserialize(HRTB ambiguity E0283, as with serde's own derive)", group=group)
+    if "arbitrary" in features:
+        vb.add(decl("W", "Vec<X>", "derive(Arbitrary)", generics="<X: for<'x> ::arbitrary::Arbitrary<'x>>"), U, "generic:user-bound-equals-derive-bound:Arbitrary", group=group)
     # generic newtypes with bounds x each derive (one per case so a single failing impl is attributable)
     gder = ["Debug", "Clone", "PartialEq", "Eq", "PartialOrd", "Ord", "Hash", "AsRef", "Deref", "Borrow", "Into", "From", "TryFrom", "Default", "IntoIterator", "Display", "FromStr"]
     if full:
@@ -530,6 +539,13 @@ def generated_tests_cases():
             add(ty, "validate(greater_or_equal = (1), less_or_equal = 9%s)" % ty, "", T1, False)
         else:
             add(ty, "validate(greater_or_equal = 5.0, less_or_equal = (3.0))", "", T1, True)
+    spell = [("LOW as i32", "HIGH", "const LOW: i64 = 1; const HIGH: i32 = 9;"), ("LOW", "HIGH as i32", "const LOW: i32 = 1; const HIGH: u8 = 9;"), ("-K", "K", "const K: i32 = 9;"),
+             ("K << 1", "K << 3", "const K: i32 = 1;"), ("A | B", "i32::MAX", "const A: i32 = 1; const B: i32 = 2;"), ("m::LOW", "m::HIGH", "mod m { pub const LOW: i32 = 1; pub const HIGH: i32 = 9; }"),
+             ("lo()", "hi()", "const fn lo() -> i32 { 1 } const fn hi() -> i32 { 9 }"), ("if F { 1 } else { 2 }", "K", "const F: bool = true; const K: i32 = 9;"), ("(LOW)", "{ HIGH }", "const LOW: i32 = 1; const HIGH: i32 = 9;")]
+    for (lo_e, hi_e, pre) in spell:
+        for lk, uk in itertools.product(["greater", "greater_or_equal"], ["less", "less_or_equal"]):
+            add("i32", "validate(%s = %s, %s = %s)" % (lk, lo_e, uk, hi_e), pre, T1, False)
+            add("i32", "validate(%s = %s, %s = %s)" % (uk, hi_e, lk, lo_e), pre, T1, False)
     for mn, mx in ((5, 3), (3, 3), (3, 5), (0, 0)):
         add("String", "validate(len_char_min = MN, len_char_max = MX)", "const MN: usize = %d; const MX: usize = %d;" % (mn, mx), T2, mn > mx)
         add("String", "validate(len_char_max = MX, len_char_min = %d)" % mn, "const MX: usize = %d;" % mx, T2, mn > mx)
